@@ -25,7 +25,7 @@ LEVEL = "proof"
 MODULE = "Sqfs.Props.C08"
 REQUIRED = ["Sqfs.C08.bw_no_error", "Sqfs.C08.bw_readback", "Sqfs.C08.bw_readback_all", "Sqfs.C08.bw_fragblocks_kept",
             "Sqfs.C08.bw_share_sound", "Sqfs.C08.bw_share_complete",
-            "Sqfs.C08.bw_refines_spec", "Sqfs.C08.bw_checksum_irrelevant",
+            "Sqfs.C08.bw_refines_spec", "Sqfs.C08.bw_checksum_irrelevant", "Sqfs.C08.bw_translate",
             "Sqfs.C08.frag_no_error", "Sqfs.C08.frag_sound", "Sqfs.C08.frag_share", "Sqfs.C08.frag_lookup_unique",
             "Sqfs.C08.stream_wfS", "Sqfs.C08.stream_readback", "Sqfs.C08.stream_frag_link", "Sqfs.C08.stream_frag_sound", "Sqfs.C08.stream_no_error"]
 
@@ -1278,8 +1278,8 @@ def run(ctx):
             "checked on every run (the model accepts the real event order)",
             "fragment theorems assume non-empty fragments (proved of the composed model: the front end only submits tail ends of "
             "size % block_size > 0 bytes)",
-            "the 4 GiB-offset scripts compare the real writer (virtual base) with the model run at offset 0, shifted: translation "
-            "invariance of the model is used, not proved"])
+            "the 4 GiB-offset scripts compare the real writer (virtual base of zero bytes) with the model run at offset 0, shifted: "
+            "justified by bw_translate (translation invariance of the model)"])
 
 
 def replay(ctx, path):
